@@ -49,7 +49,7 @@ func c11Main(e *Env) (*res.Result, error) {
 	specs := collect(e, "C11", n, func(t *rapid.T) PkgSpec {
 		c := specgen.NewCtx(t, disabled)
 		d := c.SecurityDoc(specgen.SchemeKinds)
-		return PkgSpec{Doc: d, Cfg: inproc.Config{DoNotEdit: true}, Meta: map[string]any{"tags": tagList(c.Tags)}}
+		return PkgSpec{Doc: d, Cfg: inproc.Config{DoNotEdit: true, Cors: rapid.Bool().Draw(t, "cors")}, Meta: map[string]any{"tags": tagList(c.Tags)}}
 	})
 	return compiledMain(e, "C11", specs, false, 20*time.Minute)
 }
